@@ -61,9 +61,63 @@ Definition accept (s : nst) : nst * list effect :=
 
 Fixpoint rep (n : nat) (e : effect) : list effect := match n with O => [] | S k => e :: rep k e end.
 
+(* ---------------------------------------------------------------------------------------- *)
+(* framing (C14): bytes of the payload a handler consumes, for a message whose header declares
+   [len] payload bytes; [body] is what a conformant sender puts there *)
+
+Definition varint_size (n : N) : N := if n <? 253 then 1 else if n <? 65536 then 3 else if n <? 4294967296 then 5 else 9.
+
+(* how a handler deals with the payload of a frame that declares [len] bytes *)
+Inductive rdisc :=
+| RExact               (* readMessage (a reader limited to len), DiscardInput(len), or no handler *)
+| RStream (reads : N)  (* pulls [reads] bytes through a counter; a deferred discard drops len - reads *)
+| RRaw (reads : N)     (* pulls [reads] bytes and nothing else *)
+| RNone.               (* returns without touching the payload *)
+
+Definition is_ext (m : msg) : bool := match m with MTx true | MBlock true _ | MOther true => true | _ => false end.
+
+(* the one handler that reads by item count instead of by declared length *)
+Definition inv_reads (count : N) : N := varint_size count + 36 * count.
+Definition headers_body (count : N) : N := varint_size count + 81 * count.
+
+Definition handler_reads (s : nst) (m : msg) : rdisc :=
+  match m with
+  | MVersion | MVerack | MProtoconf | MPing | MReject => RExact              (* readMessage *)
+  | MPong _ | MAddr _ => RExact                  (* readMessage when ready, no handler before *)
+  | MGetAddr => if n_ready s then RNone else RExact     (* handleGetAddresses reads nothing *)
+  | MSendHeaders | MOther _ => RExact            (* no handler: DiscardInput; extended: deferred discard *)
+  | MHeaders count _ all_ok =>
+      if n_ready s then RStream (if all_ok then headers_body count
+                                 else if count =? 0 then varint_size count else varint_size count + 81)
+      else if n_hs_complete s then RStream (if count =? 0 then varint_size count else varint_size count + 81)
+      else RNone                                 (* as found (D26): returns before the deferred discard *)
+  | MInv count => if n_ready s && n_has_txm s then RRaw (inv_reads count) else RExact
+  | MTx _ => RExact                              (* readMessage, or DiscardInput when not ready / no manager *)
+  | MBlock _ requested => if n_ready s && requested then RStream 81 else RExact  (* discardBlock drops the rest *)
+  end.
+
+Definition consumed_by (d : rdisc) (len : N) : N :=
+  match d with RExact => len | RStream r => N.max len r | RRaw r => r | RNone => 0 end.
+
+
+(* the payload length a conformant sender declares for a message of each class (free lengths get
+   a representative value: the discipline of those classes does not depend on it) *)
+Definition canonical_len (m : msg) : N :=
+  match m with
+  | MVersion => 100 | MVerack => 0 | MProtoconf => 10 | MPing => 8 | MPong _ => 8 | MReject => 50
+  | MHeaders c _ _ => headers_body c | MAddr c => varint_size c + 30 * c | MGetAddr => 0
+  | MInv c => inv_reads c | MTx _ => 200 | MBlock _ _ => 200 | MSendHeaders => 0 | MOther _ => 100
+  end.
+
+(* the reader loses its place: it took more or fewer bytes than the sender put there, so the next
+   message header is read from the wrong offset and fails on the network magic *)
+Definition desync (s : nst) (m : msg) : bool :=
+  negb (consumed_by (handler_reads s m) (canonical_len m) =? canonical_len m).
+
 (* the read loop handles one message *)
 Definition recv (s : nst) (m : msg) : nst * list effect :=
   if n_stopped s then (s, [])
+  else if desync s m then (stop s, [EStop])
   else match m with
   | MVersion => (push_hs s true, [])
   | MVerack => (push_hs s false, [])
@@ -79,11 +133,7 @@ Definition recv (s : nst) (m : msg) : nst * list effect :=
         (* tracking: every header goes to the repository; a refused one stops the node *)
         if all_ok then (s, rep (N.to_nat count) ERepoProcess)
         else (stop s, [ERepoProcess; EStop])
-      else if negb (n_hs_complete s) then
-        (* as found (observation D26): the handler returns without consuming the payload, so the
-           next header is read from the middle of this message and fails on the network magic;
-           the connection closes.  Not a C14 case: the peer is not verified yet. *)
-        (stop s, [EStop])
+      else if negb (n_hs_complete s) then (s, [])   (* "Discarding headers message" - but see desync: D26 *)
       else if count =? 0 then (stop s, [EStop])
       else match first with
            | HBsv => let '(s1, es) := accept s in (s1, ERepoVerify :: es)
@@ -129,10 +179,7 @@ Definition guarded_effect (e : effect) : bool :=
   match e with ERepoProcess | EPeersAdd | ETxID | ETx | EBlockHandler => true | _ => false end.
 
 (* ---------------------------------------------------------------------------------------- *)
-(* framing (C14): bytes of the payload a handler consumes, for a message whose header declares
-   [len] payload bytes; [body] is what a conformant sender puts there *)
-
-Definition varint_size (n : N) : N := if n <? 253 then 1 else if n <? 65536 then 3 else if n <? 4294967296 then 5 else 9.
+(* frames (C14) *)
 
 Record frame := mkFrame {
   f_msg : msg;
@@ -140,16 +187,11 @@ Record frame := mkFrame {
   f_max : N            (* MaxPayloadLength of the message type *)
 }.
 
-(* total bytes consumed from the connection, header included *)
-Definition consumed (s : nst) (f : frame) : N :=
-  let ext := match f_msg f with MTx true | MBlock true _ | MOther true => true | _ => false end in
-  (* every path either reads the payload into a buffer of exactly f_len bytes, tees it through a
-     counter and discards the remainder, or discards f_len bytes *)
-  24 + (if ext then 20 else 0) + f_len f.
-
-(* the one handler that reads by item count instead of by declared length *)
-Definition inv_reads (count : N) : N := varint_size count + 36 * count.
-Definition headers_body (count : N) : N := varint_size count + 81 * count.
+(* bytes a conformant sender put on the wire for this frame, header(s) included *)
+Definition consumed (s : nst) (f : frame) : N := 24 + (if is_ext (f_msg f) then 20 else 0) + f_len f.
+(* bytes the reader takes off the wire before it looks for the next header *)
+Definition consumed_code (s : nst) (f : frame) : N :=
+  24 + (if is_ext (f_msg f) then 20 else 0) + consumed_by (handler_reads s (f_msg f)) (f_len f).
 
 Definition well_formed (f : frame) : bool :=
   match f_msg f with
@@ -158,14 +200,8 @@ Definition well_formed (f : frame) : bool :=
   | MAddr count => f_len f =? varint_size count + 30 * count
   | MPing | MPong _ => f_len f =? 8
   | MVerack | MGetAddr | MSendHeaders => f_len f =? 0
+  | MBlock _ _ => 81 <=? f_len f                (* a header and a transaction count at least *)
   | _ => true
-  end.
-
-(* what handleInventory actually reads: it ignores the declared length *)
-Definition consumed_code (s : nst) (f : frame) : N :=
-  match f_msg f with
-  | MInv count => if n_ready s && n_has_txm s && negb (n_stopped s) then 24 + inv_reads count else consumed s f
-  | _ => consumed s f
   end.
 
 (* ---------------------------------------------------------------------------------------- *)
